@@ -127,6 +127,8 @@ MUTANTS = [
     ('C12', 'import-base-not-in-key', [R('lark/lark.py', "sys.version_info[:2], str(relative_import_base_path(self.source_path))))", "sys.version_info[:2]))")]),
     ('C12', 'key-parts-concatenated-again (revert of 8a128e0)', [R('lark/lark.py', "s = repr((grammar, options_key, __version__, sys.version_info[:2], str(relative_import_base_path(self.source_path))))", "s = grammar + ''.join(k + v for k, v in options_key) + __version__ + str(sys.version_info[:2]) + str(relative_import_base_path(self.source_path))")]),
     ('C12', 'always-accept-not-in-key (revert of 40e3147)', [R('lark/lark.py', "                if self.options.postlex is not None:\n                    # The postlexer itself", "                if False:\n                    # The postlexer itself")]),
+    ('C12', 'key-computation-fails-on-int-file-name (revert of 558f92c)', [R('lark/lark.py', "                except TypeError:\n                    # e.g. an unnamed temporary file", "                except ZeroDivisionError:\n                    # e.g. an unnamed temporary file")]),
+    ('C12', 'pickling-failure-escapes-the-constructor (revert of 90c6019)', [R('lark/lark.py', "            except Exception:\n                # Not everything can be pickled", "            except ZeroDivisionError:\n                # Not everything can be pickled")]),
     ('C12', 'edit-terminals-pickled-into-cache (revert of 2cbbc29)', [R('lark/lark.py', "self.save(payload_f, _LOAD_ALLOWED_OPTIONS | {'edit_terminals'})", "self.save(payload_f, _LOAD_ALLOWED_OPTIONS)")]),
     ('C11', 'standalone-embeds-import-paths (revert of the standalone fix)', [R('lark/tools/standalone.py', "    for name in ('import_paths', 'source_path'):\n        data['options'].pop(name, None)\n", "")]),
     ('C11', 'pattern-flags-left-as-list-on-load (revert of 68ca987)', [R('lark/lexer.py', "        self.flags = frozenset(self.flags)\n\n    def __repr__", "        pass\n\n    def __repr__")]),
@@ -143,7 +145,8 @@ MUTANTS = [
     ('C11', 'postlex-dropped-at-load', [R('lark/lark.py', '        lexer_conf.postlex = options.postlex\n', '        lexer_conf.postlex = None\n')]),
     ('C11', 'load-time-options-ignored', [R('lark/lark.py', '        options.update(kwargs)\n        self.options = LarkOptions.deserialize(options, memo)', '        self.options = LarkOptions.deserialize(options, memo)')]),
     ('C11', 'terminal-priority-reset-on-load', [R('lark/lexer.py', "    def __repr__(self):\n        return '%s(%r, %r)' % (type(self).__name__, self.name, self.pattern)", "    def _deserialize(self):\n        self.priority = 0\n\n    def __repr__(self):\n        return '%s(%r, %r)' % (type(self).__name__, self.name, self.pattern)")]),
-    ('C11', 'regex-flags-lost-in-standalone-data', [R('lark/lexer.py', "    def _get_flags(self, value):\n        for f in self.flags:", "    def _get_flags(self, value):\n        for f in (self.flags if isinstance(self.flags, frozenset) else ()):")]),
+    # (the former mutant 'flags ignored unless they are a frozenset' became equivalent when 68ca987 made loaded flags frozensets again)
+    ('C11', 'regex-flags-dropped-on-load', [R('lark/lexer.py', "        self.flags = frozenset(self.flags)\n\n    def __repr__", "        self.flags = frozenset()\n\n    def __repr__")]),
     ('C11', 'pattern-flags-not-serialised', [R('lark/lexer.py', "__serialize_fields__ = 'value', 'flags', 'raw'", "__serialize_fields__ = 'value', 'raw'")]),
 ]
 
